@@ -101,6 +101,18 @@ def run(ctx):
         for b in range(rnd.randint(1, 3)):
             # a block of statements under the current delimiter
             stm = [rnd.choice([s for s in pool if cur not in s and "\n" not in s]) for _ in range(rnd.randint(0, 3))]
+            if cur != ";" and rnd.random() < 0.4:
+                # the delimiter's text in the middle of a line, inside a literal, a comment, a quoted name or as part of an operator: not a separator there
+                inner = [x for x in ("select 'a%sb' as c1 from t1" % cur, "select 1 /* %s */ from t2" % cur, 'select "n%sm" from t3' % cur, "select a1 || b1 as c from t4", "select 'x' as category from t5")
+                         if cur in x and not x.endswith(cur)]
+                for x in inner:
+                    if x not in solo:
+                        st0, t0 = impl.outcome(M.parse, x)
+                        if st0 == "ok" and isinstance(t0, dict):
+                            solo[x] = t0
+                inner = [x for x in inner if x in solo]
+                if inner:
+                    stm.insert(rnd.randrange(len(stm) + 1), rnd.choice(inner))
             for s in stm:
                 script += s + cur + rnd.choice(["\n", " \n", "\n\n"])
                 want.append(solo[s])
